@@ -23,7 +23,7 @@ let handle (x : Sexp.t) : string =
   let dbg = Sexp.atom (Sexp.field1 "profile" fs) = "debug" in
   let text = Sexp.atom (Sexp.field1 "text" fs) in
   let impl = Sexp.field1 "impl" fs in
-  let model = parse_text_raw dbg (big_coqstr text) in
+  let model = parse_text_raw_v code_variant dbg (big_coqstr text) in
   let mclass = match model with POk _ -> "ok" | PErr -> "err" | PPanic k -> "panic(" ^ kind_name k ^ ")" in
   match impl with
   | Sexp.List (Sexp.Atom "panic" :: loc :: rest) ->
@@ -33,7 +33,7 @@ let handle (x : Sexp.t) : string =
        | PPanic PUnsupported ->
            (* outside the property: documented-unsupported operator *)
            Registry.result ~id ~status:"ok" ~key:"unsupported-op" ~detail:("panic at " ^ loc) ()
-       | PPanic k when pre_all (List.map tokenize (split_lines (big_coqstr text))) p_empty ->
+       | PPanic k when (code_variant = Fix || pre_all (List.map tokenize (split_lines (big_coqstr text))) p_empty) ->
            (* theorem C18_no_crash_outside_known says this cannot happen for the model; for the code it is a new defect *)
            Registry.result ~id ~status:"fail" ~key:("panic-outside-known-class:" ^ loc) ~detail:(Printf.sprintf "parse_str panics (%s) on an input satisfying line_pre everywhere; model: %s" msg (kind_name k)) ()
        | PPanic k ->
@@ -65,8 +65,8 @@ let handle (x : Sexp.t) : string =
            (* theorem C18_accepted_outside_known: outside the known classes only the unchecked width of
               bad/constraint lines can make an accepted system fail sys_ok *)
            let ls = List.map tokenize (split_lines (big_coqstr text)) in
-           let outside = pre_all ls p_empty && not (List.exists zero_sort_line ls) in
-           let benign = (k = "bad-not-bv1" || k = "constraint-not-bv1") in
+           let outside = code_variant = Fix || (pre_all ls p_empty && not (List.exists zero_sort_line ls)) in
+           let benign = code_variant = Cur && (k = "bad-not-bv1" || k = "constraint-not-bv1") in
            let key = if outside && not benign then "accept-outside-known-class:" ^ k else "accept:" ^ k in
            Registry.result ~id ~status:"fail" ~key ~detail:("accepted system is not well formed; model " ^ mclass) ()
        | None ->
@@ -78,7 +78,7 @@ let handle (x : Sexp.t) : string =
                  | None ->
                      (* on small systems also compare with the eager definition parse_text *)
                      if small && ren <> [] then
-                       (match parse_text dbg (big_coqstr text) with
+                       (match parse_text_v code_variant dbg (big_coqstr text) with
                         | POk full ->
                             (match compare_sys d s full [] with
                              | None -> Registry.result ~id ~status:"ok" ~key:"ok" ()
